@@ -730,6 +730,9 @@ def run(rep, tier):
     # key generation maps the seed into [1, n-1] with bn_mod_reduce: a value equal to the modulus is reduced too (C03's rule)
     from props import c03
     c03.reduce_rule(rep, us["ecdsa:default"])
+    # compressed keys are restored with bn_mod_sqrt: its non-residue search must not give up because the operand is small
+    from props import c01
+    c01.search_budget_rule(rep, us["ecdsa:default"])
     rep.floor("bounded reads/writes decided", nb, 60)
     rep.floor("codec layouts and importer arms evaluated", nc, 200)
     rep.floor("validation obligations", nv, 10)
